@@ -291,7 +291,7 @@ class C12(Base):
             "cases use values outside the exact-decimal domain (NaN, inf, 1e300, -0, >15 digits, 25+ fraction digits). "
             "thorough adds, per locale (20) x cardinal/ordinal: every integer 0-200 as i32 argument, as literal with "
             ".0/.00/.5/.10, and with minimumFractionDigits 1, and every one- and two-fraction-digit literal over "
-            "integer parts 0-20. Non-trivial = value in the exact-decimal domain, selector is a number, and either a "
+            "integer parts 0-20. Values include numbers handed over by the caller that already carry type = ordinal (`n<v>/<mfd>/o`), with an explicit `type` in the call. Non-trivial = value in the exact-decimal domain, selector is a number, and either a "
             "variant other than the default was chosen by a key or NUMBER changed the printed text or fraction digits "
             "are visible; distinct = distinct case line.")
     EXPLANATION = ("Theorems (Props/C12.lean): literal_fraction_digits, number_options_override, operands_match_display, "
